@@ -71,6 +71,7 @@ nonell_count = z3.Function("nonell_count", Obj, I)   # number of non-Ellipsis it
 conforms = z3.Function("conforms", Obj, Obj, B)     # C02: value conforms to schema (spec relation)
 winok = z3.Function("winok", Obj, I, I, Obj, I, B)  # forall j<k. conforms(E[eoff+j], v[voff+j])
 winwit = z3.Function("winwit", Obj, I, I, Obj, I, I)
+inp = z3.Function("inp", Obj, B)                    # input object: floats reachable from it are in range
 propf = z3.Function("propf", Obj, Obj, Obj)         # schema.props.get(name): registry.get(name, Nil)
 all_in = z3.Function("all_in", S, S, B)           # every character of the 1st string occurs in the 2nd
 all_in_wit = z3.Function("all_in_wit", S, S, I)
@@ -327,6 +328,15 @@ def base_axioms() -> List[z3.BoolRef]:
         z3.Or(z3.And(llen(jl) > 1, z3.Not(all_in(sp, al))),
               z3.And(0 <= jw_, jw_ < llen(jl), z3.Not(all_in(sval(lat(jl, jw_)), al))))),
         patterns=[all_in(joined(sp, jl), al)]))
+    # representation invariant of the float model: a finite float lies within +-DBL_MAX (every FloatV the
+    # executor builds goes through float_from_real or lies between two finite floats)
+    # (stated for *input* objects only -- `inp` -- and what is reachable from them: an unconditional
+    # axiom would also constrain the FloatV(r) terms inside float_from_real and hide every overflow path)
+    ax.append(z3.ForAll([o], z3.Implies(z3.And(inp(o), is_FloatV(o)),
+                                        z3.And(fval(o) <= DBL_MAX, fval(o) >= -DBL_MAX)), patterns=[inp(o)]))
+    ax.append(z3.ForAll([o, j], z3.Implies(inp(o), inp(lat(o, j))), patterns=[z3.MultiPattern(inp(o), lat(o, j))]))
+    ax.append(z3.ForAll([o, k], z3.Implies(inp(o), inp(dget(o, k))), patterns=[z3.MultiPattern(inp(o), dget(o, k))]))
+    ax.append(z3.ForAll([o, k], z3.Implies(inp(o), inp(propf(o, k))), patterns=[z3.MultiPattern(inp(o), propf(o, k))]))
     # str(x) of a str is the str itself
     ax.append(z3.ForAll([o], z3.Implies(is_StrV(o), str_s(o) == sval(o)), patterns=[str_s(o)]))
     # list <-> sequence views (PathHolder contents): round trip, length and items
